@@ -77,7 +77,7 @@ def run_cmd(cmd, cwd, timeout, mem_gb=None, env=None):
 # Kani output classification
 # ----------------------------------------------------------------------------
 CHECK_RE = re.compile(
-    r'Check \d+: (?P<id>[^\n]+)\n\s+- Status: (?P<status>\w+)\n\s+- Description: "(?P<desc>[^\n]*)"\n\s+- Location: (?P<loc>[^\n]*)')
+    r'Check \d+: (?P<id>[^\n]+)\n\s+- Status: (?P<status>\w+)\n\s+- Description: "(?P<desc>.*?)"\n\s+- Location: (?P<loc>[^\n]*)', re.S)
 
 
 def classify_kani(out, rc, timed_out, expect):
@@ -116,6 +116,9 @@ def classify_kani(out, rc, timed_out, expect):
         return r
     if 'VERIFICATION:- FAILED' in out:
         real = [f for f in fails if 'unwinding assertion' not in f['desc']]
+        if not fails and re.search(r'^Failed Checks: ', out, re.M) and re.search(r'\*\* [1-9]\d* of \d+ failed', out):
+            fails = [dict(id='unparsed', desc=m_.strip()[:300], loc='(location not parsed)') for m_ in re.findall(r'^Failed Checks: ([^\n]*)', out, re.M)]
+            real = [f for f in fails if 'unwinding assertion' not in f['desc']]
         if not fails:
             if 'out of memory' in out.lower() or 'bad_alloc' in out:
                 r['reason'] = 'solver out of memory (cap reached)'
